@@ -51,7 +51,17 @@ def seeded_table():
         rows.append(f"| {sid} | {r.get('property')} | {summ} | {r.get('suite','')} | {', '.join(caught) if caught else 'MISSED: ' + ', '.join(missed)} | {first} |")
     return "\n".join(rows)
 
-TABLES = {"status": status_table, "fixes": fixes_table, "seeded": seeded_table}
+def theorems_list():
+    out = []
+    for n in range(1, 21):
+        pid = f"C{n:02d}"
+        th = core.theorem_names(pid)
+        if th:
+            out.append(f"* **{pid}** ({len(th)}): " + ", ".join(f"`{t}`" for t in th))
+    return "\n".join(out)
+
+
+TABLES = {"status": status_table, "fixes": fixes_table, "seeded": seeded_table, "theorems": theorems_list}
 
 def main():
     path = os.path.join(VERIF, "DESIGN.md")
